@@ -287,6 +287,55 @@ func (vc *VC) arrComp(elem types.Type) string {
 	return name
 }
 
+// allocComp2: the component an Alloc lives in. A fixed-size array variable that is only indexed and
+// copied as a whole (never sliced, never passed on or stored as a pointer) cannot share its storage
+// with any slice; it gets a component of its own, so that writes to it do not stand between a slice
+// read and the facts known about that slice.
+func (vc *VC) allocComp2(a *ssa.Alloc) string {
+	elem := a.Type().(*types.Pointer).Elem()
+	if at, ok := elem.Underlying().(*types.Array); ok && privateArray(a) {
+		name := "ArrL!" + typeKey(at.Elem())
+		vc.comp(name, fmt.Sprintf("(Array Int (Array %s %s))", vc.isort(), vc.sortOf(at.Elem())))
+		return name
+	}
+	return vc.memComp(elem)
+}
+
+func privateArray(a *ssa.Alloc) bool {
+	refs := a.Referrers()
+	if refs == nil {
+		return false
+	}
+	for _, r := range *refs {
+		switch r := r.(type) {
+		case *ssa.IndexAddr:
+			ir := r.Referrers()
+			if ir == nil {
+				return false
+			}
+			for _, u := range *ir {
+				switch u := u.(type) {
+				case *ssa.Store:
+					if u.Addr != r {
+						return false
+					}
+				case *ssa.UnOp, *ssa.DebugRef:
+				default:
+					return false
+				}
+			}
+		case *ssa.UnOp, *ssa.DebugRef:
+		case *ssa.Store:
+			if r.Addr != a {
+				return false
+			}
+		default:
+			return false
+		}
+	}
+	return true
+}
+
 func (vc *VC) globalComp(g *ssa.Global) string {
 	name := "G!" + shortPkg(g.Pkg.Pkg.Path()) + "." + g.Name()
 	vc.comp(name, vc.sortOf(g.Type().(*types.Pointer).Elem()))
@@ -916,7 +965,7 @@ func (fr *Frame) loopModifies(h *ssa.BasicBlock) []string {
 				}
 			case *ssa.Alloc:
 				set["$alloc"] = true
-				set[vc.memComp(ins.Type().(*types.Pointer).Elem())] = true
+				set[vc.allocComp2(ins)] = true
 			case *ssa.MakeSlice:
 				set["$alloc"] = true
 				set[vc.arrComp(ins.Type().Underlying().(*types.Slice).Elem())] = true
@@ -998,6 +1047,8 @@ func (fr *Frame) compsOfAddr(addr ssa.Value) []string {
 		if lv, ok := fr.freeL[a]; ok {
 			return []string{lv.Comp}
 		}
+	case *ssa.Alloc:
+		return []string{vc.allocComp2(a)}
 	}
 	if p, ok := addr.Type().Underlying().(*types.Pointer); ok {
 		return []string{vc.memComp(p.Elem())}
